@@ -25,6 +25,84 @@ fn bits_of(b: u8) -> Vec<Val> {
     (0..8).map(|i| Val::Bool(b & (0x80 >> i) != 0)).collect()
 }
 
+/// C07.named (lookup): ASN1Value::link_enum_or_distinguished — the resolver of an identifier against the chain of governing
+/// types — is evaluated on a small definition map in which value assignments carry the same names as a named number and an
+/// enumeral: the identifier denotes the named number / enumeral of the governing type (X.680 19.10, 20.8), directly and
+/// through a reference to the defining type, and is not found in a type that does not define it.
+pub fn named_lookup(m: &Model, ctx: &mut Ctx, rule: &str) {
+    use std::collections::BTreeMap as Map;
+    let Some(f) = m.fns.iter().find(|f| f.name == "link_enum_or_distinguished" && f.self_ty.as_deref() == Some("ASN1Value")) else {
+        ctx.fail_closed(rule, "anchor not found: ASN1Value::link_enum_or_distinguished");
+        return;
+    };
+    ctx.func(&f.key);
+    let consts = const_resolver(m);
+    let named = |n: &str, fields: Vec<(&str, Val)>| Val::Ctor(n.to_string(), vec![], fields.into_iter().map(|(k, v)| (k.to_string(), v)).collect::<Map<_, _>>());
+    let tld = |ty: Val| Val::Ctor("Type".into(), vec![named("ToplevelTypeDefinition", vec![("ty", ty)])], Map::new());
+    let int_ty = Val::Ctor("Integer".into(), vec![named("Integer", vec![
+        ("distinguished_values", Val::some(Val::List(vec![named("DistinguishedValue", vec![("name", Val::Str("unavailable".into())), ("value", Val::int(127))])]))),
+        ("constraints", Val::List(vec![])),
+    ])], Map::new());
+    let enum_ty = Val::Ctor("Enumerated".into(), vec![named("Enumerated", vec![
+        ("members", Val::List(vec![named("Enumeral", vec![("name", Val::Str("green".into()))]), named("Enumeral", vec![("name", Val::Str("blue".into()))])])),
+    ])], Map::new());
+    let alias = |to: &str| Val::Ctor("ElsewhereDeclaredType".into(), vec![named("DeclarationElsewhere", vec![("identifier", Val::Str(to.into()))])], Map::new());
+    let value = Val::Ctor("Value".into(), vec![named("ToplevelValueDefinition", vec![("name", Val::Str("v".into()))])], Map::new());
+    let defs: Vec<(&str, Val)> = vec![
+        ("SpeedValue", tld(int_ty)), ("Speed", tld(alias("SpeedValue"))), ("Colour", tld(enum_ty)), ("Shade", tld(alias("Colour"))),
+        // value assignments that happen to be named like a named number and an enumeral
+        ("unavailable", value.clone()), ("green", value.clone()),
+    ];
+    let hook = move |_: &Evaluator, name: &str, a: &[Val]| -> Option<Result<Val, String>> {
+        match (name, a.first()) {
+            (".get", Some(Val::Opaque(s))) if s == "tlds" => match a.get(1) {
+                Some(Val::Str(k)) => Some(Ok(defs.iter().find(|(n, _)| n == k).map(|(_, v)| Val::some(v.clone())).unwrap_or(Val::none()))),
+                _ => Some(Err("tlds.get with a key that is not a name".into())),
+            },
+            _ => None,
+        }
+    };
+    let inl = inline_all(m, &["ASN1Value"]);
+    let ev = Evaluator { consts: &consts, call_hook: &hook, inline: Some(&inl) };
+    let params: Vec<String> = f.sig.inputs.iter().filter_map(|a| match a { syn::FnArg::Typed(t) => Some(tok(&t.pat).trim_start_matches("mut ").to_string()), _ => None }).collect();
+    if params.len() != 4 {
+        ctx.fail_closed(rule, "link_enum_or_distinguished: expected (tlds, governing reference, identifier, supertypes)");
+        return;
+    }
+    for (gov, id, want) in [("SpeedValue", "unavailable", Some("127")), ("Speed", "unavailable", Some("127")), ("Colour", "green", Some("Colour::green")), ("Shade", "green", Some("Colour::green")), ("Colour", "unavailable", None), ("SpeedValue", "green", None)] {
+        ctx.oblige(rule, &format!("lookup:{}:{}", gov, id), true);
+        let mut env = Env::new();
+        env.insert(params[0].clone(), Val::Opaque("tlds".into()));
+        env.insert(params[1].clone(), named("DeclarationElsewhere", vec![("identifier", Val::Str(gov.into()))]));
+        env.insert(params[2].clone(), Val::Str(id.into()));
+        env.insert(params[3].clone(), Val::List(vec![]));
+        let got = match ev.eval_fn_body(&f.block, &mut env) {
+            Ok(Val::Ctor(ok, p, _)) if ok == "Ok" => match p.first() {
+                Some(Val::Ctor(s, q, _)) if s == "Some" => {
+                    // render: the enumeral as Type::name, a named number as its number
+                    fn render(v: &Val) -> String {
+                        match v {
+                            Val::Ctor(n, _, f) if n == "EnumeratedValue" => format!("{}::{}", f.get("enumerated").map(|x| x.show()).unwrap_or_default().trim_matches('"'), f.get("enumerable").map(|x| x.show()).unwrap_or_default().trim_matches('"')),
+                            Val::Ctor(n, _, f) if n == "LinkedNestedValue" => f.get("value").map(render).unwrap_or_default(),
+                            Val::Ctor(n, _, f) if n == "LinkedIntValue" => match f.get("value") { Some(Val::Int { v, .. }) => v.to_string(), o => format!("{:?}", o.map(|x| x.show())) },
+                            o => o.show(),
+                        }
+                    }
+                    Some(q.first().map(render).unwrap_or_default())
+                }
+                Some(Val::Ctor(s, _, _)) if s == "None" => None,
+                o => { ctx.fail_closed(rule, &format!("[{} / {}]: result {:?}", gov, id, o.map(|x| x.show()))); continue }
+            },
+            Ok(o) => { ctx.fail_closed(rule, &format!("[{} / {}]: result {}", gov, id, o.show())); continue }
+            Err(e) => { ctx.fail_closed(rule, &format!("[{} / {}]: {}", gov, id, e)); continue }
+        };
+        if got.as_deref() != want {
+            ctx.violate(rule, &format!("governing-type-name:{}", if want.is_some() { "not-found" } else { "found-elsewhere" }), &f.file, f.line,
+                &format!("`{}` as a value of type {} (value assignments `unavailable` and `green` also exist) resolves to {:?}; by X.680 19.10 / 20.8 it is {:?}: the named number / enumeral of the governing type, wherever else the name is used", id, gov, got, want));
+        }
+    }
+}
+
 pub fn run(m: &Model, ctx: &mut Ctx) {
     ctx.explanation = "Only the table clauses of C07 are decided: \
 C07.hex: hex_to_bools equals the 16-row table over exactly the alphabet the hstring lexer accepts (MSB first), and the bstring form maps '1' to true and every other accepted digit to false; the B/H decision follows the suffix letter. \
@@ -306,6 +384,7 @@ Not applicable (run-time values): resolution of references, nested CHOICE/SEQUEN
     struct_values(m, ctx);
     default_traversal(m, ctx);
     crate::rules::c06::named_first(m, ctx, "C07.named");
+    named_lookup(m, ctx, "C07.named");
     oid(m, ctx, &ev);
     strings(m, ctx, &ev);
 }
